@@ -139,6 +139,14 @@ func runCase(c Case, r *runlog.R) error {
 			if !vx.IsCyclic(gerr) {
 				return fmt.Errorf("field %q re-enters a reference that nothing can absorb, but the error is not a cyclic-reference error: %v", k, gerr)
 			}
+			// walking a path through k evaluates k only as far as the chain of references leads (not the members of
+			// the object or list it ends at)
+			w.Reset()
+			if herr := w.HeadErr(setting); herr == vx.ErrCyclic && !w.Absorbed {
+				if err := throughCycle(cfg, k, opts, r); err != nil {
+					return err
+				}
+			}
 			continue
 		}
 		rep := w.Repeated()
@@ -198,6 +206,55 @@ func runCase(c Case, r *runlog.R) error {
 	}
 	r.ClassIf(anyCycle, "case has a cycle")
 	r.NonTrivialIf(nt)
+	return nil
+}
+
+// throughCycle: k is a reference that can only be evaluated by re-entering itself and nothing absorbs that. A read
+// that has to walk THROUGH k (k.zz, element 1 of k) evaluates k on the way: the cycle must be reported as such,
+// not as a missing or mistyped setting (which Has and struct fields with dotted names would silently swallow).
+func throughCycle(cfg *ucfg.Config, k string, opts []ucfg.Option, r *runlog.R) error {
+	check := func(what string, err error) error {
+		if err == nil {
+			return fmt.Errorf("%s succeeded although %q can only be evaluated by re-entering itself", what, k)
+		}
+		if !vx.IsCyclic(err) {
+			return fmt.Errorf("%s leads through %q, which can only be evaluated by re-entering itself, but the error is not a cyclic-reference error: %v", what, k, err)
+		}
+		return vx.Typed(what, err)
+	}
+	for _, p := range []string{k + ".zz", k + ".zz.y", k + ".1"} {
+		var e1, e2, e3, e4, e5 error
+		if e := uc.Safe("reads through a cyclic reference", func() error {
+			_, e1 = cfg.String(p, -1, opts...)
+			_, e2 = cfg.Has(p, -1, opts...)
+			_, e3 = cfg.Child(p, -1, opts...)
+			_, e4 = cfg.Int(p, -1, opts...)
+			_, e5 = unpackField(cfg, p, opts)
+			return nil
+		}); e != nil {
+			return e
+		}
+		for i, e := range []error{e1, e2, e3, e4, e5} {
+			if err := check(fmt.Sprintf("%s(%q)", []string{"String", "Has", "Child", "Int", "Unpack of field"}[i], p), e); err != nil {
+				return err
+			}
+		}
+	}
+	var e1, e2, e3 error
+	if e := uc.Safe("reads through a cyclic reference", func() error {
+		_, e1 = cfg.String(k, 1, opts...)
+		_, e2 = cfg.Has(k, 1, opts...)
+		_, e3 = cfg.Child(k, 1, opts...)
+		return nil
+	}); e != nil {
+		return e
+	}
+	for i, e := range []error{e1, e2, e3} {
+		if err := check(fmt.Sprintf("%s(%q, 1)", []string{"String", "Has", "Child"}[i], k), e); err != nil {
+			return err
+		}
+	}
+	r.Class("reads through a purely cyclic reference")
 	return nil
 }
 
@@ -266,6 +323,24 @@ func moreReads(cfg *ucfg.Config, k string, want interface{}, opts []ucfg.Option,
 			}
 			if e := noCycle(fmt.Sprintf("String(%q)", k+"."+sub), gerr); e != nil {
 				return e
+			}
+			// the member read through the (possibly referenced) object is the member of the evaluated object
+			got, uerr := unpackField(cfg, k+"."+sub, opts)
+			if e := noCycle(fmt.Sprintf("Unpack of field %q", k+"."+sub), uerr); e != nil {
+				return e
+			}
+			if uerr != nil {
+				return fmt.Errorf("field %q evaluates to %s, but reading its member %q failed: %v", k, canon.Show(want), sub, uerr)
+			}
+			if !canon.EqualData(got, x[sub]) {
+				return fmt.Errorf("field %q evaluates to %s, but its member %q read through the path is %s", k, canon.Show(want), sub, canon.Show(got))
+			}
+			var has bool
+			if e := uc.Safe("Has path", func() error { has, gerr = cfg.Has(k+"."+sub, -1, opts...); return nil }); e != nil {
+				return e
+			}
+			if gerr != nil || !has {
+				return fmt.Errorf("field %q evaluates to %s, but Has(%q) = %v, %v", k, canon.Show(want), k+"."+sub, has, gerr)
 			}
 		}
 		r.Class("object read into typed targets and through paths")
@@ -340,7 +415,20 @@ func splicedContainer(root *vx.Node, w *vx.World) bool {
 	return found
 }
 
+// siblings unpacks all settings at once into one struct, with plain tags and with merge options in the tags of
+// some or all fields (a field with a merge option is evaluated with options of its own).
 func siblings(cfg *ucfg.Config, c Case, w *vx.World, opts []ucfg.Option, r *runlog.R) error {
+	for variant := 0; variant < 4; variant++ {
+		if err := siblingsVariant(cfg, c, w, opts, r, variant); err != nil {
+			return err
+		}
+	}
+	return nil
+}
+
+var tagOpts = []string{"", ",replace", ",append", ",prepend"}
+
+func siblingsVariant(cfg *ucfg.Config, c Case, w *vx.World, opts []ucfg.Option, r *runlog.R, variant int) error {
 	var fields []reflect.StructField
 	var want []interface{}
 	anyErr, onlyCyclic := false, true
@@ -357,7 +445,16 @@ func siblings(cfg *ucfg.Config, c Case, w *vx.World, opts []ucfg.Option, r *runl
 			}
 		}
 		want = append(want, v)
-		fields = append(fields, reflect.StructField{Name: fmt.Sprintf("F%d", i), Type: reflect.TypeOf((*interface{})(nil)).Elem(), Tag: reflect.StructTag(fmt.Sprintf(`config:"%s"`, k))})
+		tagOpt := ""
+		switch variant {
+		case 1:
+			tagOpt = tagOpts[1+i%3]
+		case 2:
+			tagOpt = tagOpts[(i+1)%2*2] // every other field
+		case 3:
+			tagOpt = tagOpts[i%2*3]
+		}
+		fields = append(fields, reflect.StructField{Name: fmt.Sprintf("F%d", i), Type: reflect.TypeOf((*interface{})(nil)).Elem(), Tag: reflect.StructTag(fmt.Sprintf(`config:"%s%s"`, k, tagOpt))})
 	}
 	if len(fields) < 2 {
 		return nil
@@ -378,13 +475,13 @@ func siblings(cfg *ucfg.Config, c Case, w *vx.World, opts []ucfg.Option, r *runl
 	}
 	if gerr != nil {
 		if vx.IsCyclic(gerr) {
-			return fmt.Errorf("no field re-enters a reference, but unpacking all settings into one struct (fields %v) reported a cyclic reference: %v", c.Root.Keys, gerr)
+			return fmt.Errorf("no field re-enters a reference, but unpacking all settings into one struct (fields %v, tag variant %d) reported a cyclic reference: %v", c.Root.Keys, variant, gerr)
 		}
 		return fmt.Errorf("no field of the model fails, but unpacking all settings into one struct failed: %v", gerr)
 	}
 	for i := range want {
 		if got := out.Elem().Field(i).Interface(); !canon.EqualData(got, want[i]) {
-			return fmt.Errorf("struct field %q: got %s, want %s", c.Root.Keys[i], canon.Show(got), canon.Show(want[i]))
+			return fmt.Errorf("struct field %q (tag variant %d): got %s, want %s", c.Root.Keys[i], variant, canon.Show(got), canon.Show(want[i]))
 		}
 	}
 	r.Class("sibling struct fields compared")
